@@ -14,6 +14,7 @@ import (
 
 	"github.com/criyle/go-sandbox/container"
 	"github.com/criyle/go-sandbox/pkg/forkexec"
+	"github.com/criyle/go-sandbox/pkg/mount"
 	"github.com/criyle/go-sandbox/pkg/rlimit"
 	"github.com/criyle/go-sandbox/runner"
 	"github.com/criyle/go-sandbox/runner/ptrace"
@@ -262,6 +263,17 @@ func c12ops(tier string) []c12op {
 		}},
 		c12op{"build-fails(temporary root cannot be created)", func(e *c12env, nonce string) string {
 			_, err := newContainer(func(b *container.Builder) { b.Root = "/nonexistent-" + nonce; b.TmpRoot = "r" })
+			return fmt.Sprint(err != nil)
+		}},
+		c12op{"build-fails(configuration refused: bind source missing)", func(e *c12env, nonce string) string {
+			// the init starts and answers its first ping, then cannot apply the configuration
+			_, err := newContainer(func(b *container.Builder) {
+				b.Mounts = append(b.Mounts, mount.Mount{Source: "/nonexistent-" + nonce, Target: "x", Flags: syscall.MS_BIND | syscall.MS_RDONLY})
+			})
+			return fmt.Sprint(err != nil)
+		}},
+		c12op{"build-fails(configuration refused: init command cannot start)", func(e *c12env, nonce string) string {
+			_, err := newContainer(func(b *container.Builder) { b.InitCommand = []string{"/nonexistent-" + nonce} })
 			return fmt.Sprint(err != nil)
 		}},
 		c12op{"build-fails(init never answers)", func(e *c12env, nonce string) string {
